@@ -4,8 +4,8 @@
    the transport theorems of Proofs/CompositionMixed.v apply. *)
 From Coq Require Import List Arith ZArith.
 From VBase Require Import FieldOps ZpOps.
-From VModel Require Import ExtField Composition CompositionMixed.
-From VProofs Require Import ZpLaws ExtModel ExtConcrete CompositionBase CompositionIndex CompositionMixed.
+From VModel Require Import ExtField Composition CompositionMixed CompositionMixedWhole.
+From VProofs Require Import ZpLaws ExtModel ExtConcrete CompositionBase CompositionIndex CompositionMixed CompositionMixedWhole.
 Import ListNotations.
 
 Theorem quad_f64_emb :
@@ -30,3 +30,24 @@ Corollary quad_f64_lincomb_mixed evals coefs :
   lincomb_mixed (q_ops F64_ops (f64_x2 F64_ops)) (q_mul_base (f64_x2 F64_ops)) evals coefs
   = lincomb (q_ops F64_ops (f64_x2 F64_ops)) (map (q_from_base F64_ops) evals) coefs.
 Proof. exact (lincomb_mixed_embeds F64_ops _ _ _ quad_f64_emb evals coefs). Qed.
+
+(* round 8: the whole mixed single-segment evaluate() over the quadratic / cubic extension of f64 is the single-field
+   evaluate over the extension on the embedded base-field inputs (instances of evaluate_mixed_embeds) *)
+Definition quad_f64_evaluate_mixed_embeds :=
+  evaluate_mixed_embeds F64_ops (q_ops F64_ops (f64_x2 F64_ops)) F64_laws f64_quad_laws
+                        (q_from_base F64_ops) (q_mul_base (f64_x2 F64_ops)) quad_f64_emb.
+Definition cube_f64_evaluate_mixed_embeds :=
+  evaluate_mixed_embeds F64_ops (c_ops F64_ops (f64_x3 F64_ops)) F64_laws f64_cube_laws
+                        (c_from_base F64_ops) (c_mul_base (f64_x3 F64_ops)) cube_f64_emb.
+Definition quad_f64_table_row_spec_ext :=
+  table_row_spec_single_segment_ext F64_ops (q_ops F64_ops (f64_x2 F64_ops)) F64_laws f64_quad_laws
+                        (q_from_base F64_ops) (q_mul_base (f64_x2 F64_ops)) quad_f64_emb.
+Definition cube_f64_table_row_spec_ext :=
+  table_row_spec_single_segment_ext F64_ops (c_ops F64_ops (f64_x3 F64_ops)) F64_laws f64_cube_laws
+                        (c_from_base F64_ops) (c_mul_base (f64_x3 F64_ops)) cube_f64_emb.
+Definition quad_f64_composition_is_definition_ext :=
+  composition_is_definition_ext F64_ops (q_ops F64_ops (f64_x2 F64_ops)) F64_laws f64_quad_laws
+                        (q_from_base F64_ops) (q_mul_base (f64_x2 F64_ops)) quad_f64_emb.
+Definition cube_f64_composition_is_definition_ext :=
+  composition_is_definition_ext F64_ops (c_ops F64_ops (f64_x3 F64_ops)) F64_laws f64_cube_laws
+                        (c_from_base F64_ops) (c_mul_base (f64_x3 F64_ops)) cube_f64_emb.
